@@ -51,3 +51,25 @@ for _name, _ptt in (("gbc", PTT_GBC), ("gac", PTT_GAC)):
              inline=[f"{RT}:Router.gn_data_request_gbc"] if _name == "gac" else [],
              canary={"default_hop_limit_always": "implies(n_sent() == 1, be(sent0(), 3, 1) == self.mib.itsGnDefaultHopLimit)"},
              **S)
+
+# ---------------------------------------------------------------- GUC source operation
+def _guc_ghost(e, st, env):
+    from pyvc.values import TupleV, StrV
+    return st.ghost_append("reissued", env["request"])
+
+
+GUC_PRE = PRE + ["request_ok(request)", "request.destination is not None"]
+contract(f"{RT}:Router.gn_data_request_guc", props=["C02", "C20", "C01"],
+         shapes={"self": ROUTER, "request": gnreq(PTT_GUC)}, requires=GUC_PRE, modifies=["self.sequence_number"],
+         ghost_effect=_guc_ghost,
+         ensures={
+             "at_most_one_frame": "n_sent() <= 1",
+             "accepted_unless_send_fails": "implies(n_sent() == 1, result.result_code.value == 1)",
+             "basic_hop_limit": "implies(n_sent() == 1 and n_ls_requests() == 0, frame_basic_ok(sent0(), 1, hop_limit_for(request, self.mib)))",
+             "lifetime_is_best_for_request": "implies(n_sent() == 1 and n_ls_requests() == 0, frame_lifetime_ms(sent0()) == best_ms(requested_ms_int(request.max_packet_lifetime, self.mib.itsGnDefaultPacketLifetime)))",
+             "common_header": "implies(n_sent() == 1 and n_ls_requests() == 0, sent0()[4:12] == common_bytes(request.upper_protocol_entity, request.packet_transport_type.header_type, request.packet_transport_type.header_subtype, request.traffic_class, self.mib.itsGnIsMobile.value, request.length, hop_limit_for(request, self.mib)))",
+             "so_pv_is_ego": "implies(n_sent() == 1 and n_ls_requests() == 0, sent0()[16:40] == lpv_int(self.ego_position_vector).to_bytes(24, 'big') and sent0()[12:14] == self.sequence_number.to_bytes(2, 'big') and sent0()[14:16] == bytes(2))",
+             "de_pv_is_destination": "implies(n_sent() == 1 and n_ls_requests() == 0, sent0()[42:48] == request.destination.mid.mid)",
+             "payload": "implies(n_sent() == 1 and n_ls_requests() == 0, sent0()[60:] == request.data)",
+             "unknown_destination_starts_lookup": "implies(n_ls_requests() == 1, n_sent() == 0 and result.result_code.value == 1)"},
+         cover=["n_sent() == 1 and n_ls_requests() == 0", "n_ls_requests() == 1"], **S)
